@@ -24,8 +24,8 @@ type c03 struct{ base }
 
 func init() {
 	core.Register(c03{base{id: "C03", level: "exploration", quickB: 16, thoroughB: 32,
-		rule:        "three monitors. (1) segmentation metamorphism: generated client byte streams (optional SSLRequest/N, startup, optional password, simple/extended/COPY traffic, surplus-carrying and truncated messages, optionally cut short at a random offset) are delivered under 6 (quick) / 12 (thorough) segmentations - all at once, one byte per read, cuts inside every message header, PRNG cut sets - and the normalised transcript + callback trace must be identical. (2) surplus isolation: Query/Parse/Bind/Describe/Execute/Close/Sync/Flush/CopyDone messages get surplus bytes appended inside their declared length (sentinel text, bytes that parse as a binary COPY row or as another protocol message); the transcript and every callback argument must equal the run without surplus and never contain the sentinel. (3) accessor cursor: buffer.Reader positioned on a generated body followed by a sentinel 'next message'; random sequences of GetString/GetBytes(n>=0)/GetUint16/GetUint32/GetPrepareType are compared with an independent cursor over the body (values, errors, no read beyond the message, no panic; checkptr build, child process). Non-trivial = stream with >= 3 messages and a cut inside a header, surplus case, or accessor sequence hitting the end of the body; distinct = stream shape / surplus placement / accessor sequence shape.",
-		need:        []string{"streams", "segmentations_compared", "cuts_inside_headers", "surplus_cases", "accessor_sequences", "accessor_calls_compared", "accessor_short_data_errors", "truncated_streams"},
+		rule:        "four monitors (the fourth, framing probes: messages of every type with arbitrary non-fatal bodies - oversized with lengths around multiples of L, unknown types, Sync/Flush/Close/Query with surplus, stray COPY messages, failing extended messages - interleaved with numbered probes Sync + Query; every probe must reach the parser exactly once and in order). (1) segmentation metamorphism: generated client byte streams (optional SSLRequest/N, startup, optional password, simple/extended/COPY traffic, surplus-carrying and truncated messages, optionally cut short at a random offset) are delivered under 6 (quick) / 12 (thorough) segmentations - all at once, one byte per read, cuts inside every message header, PRNG cut sets - and the normalised transcript + callback trace must be identical. (2) surplus isolation: Query/Parse/Bind/Describe/Execute/Close/Sync/Flush/CopyDone messages get surplus bytes appended inside their declared length (sentinel text, bytes that parse as a binary COPY row or as another protocol message); the transcript and every callback argument must equal the run without surplus and never contain the sentinel. (3) accessor cursor: buffer.Reader positioned on a generated body followed by a sentinel 'next message'; random sequences of GetString/GetBytes(n>=0)/GetUint16/GetUint32/GetPrepareType are compared with an independent cursor over the body (values, errors, no read beyond the message, no panic; checkptr build, child process). Non-trivial = stream with >= 3 messages and a cut inside a header, surplus case, or accessor sequence hitting the end of the body; distinct = stream shape / surplus placement / accessor sequence shape.",
+		need:        []string{"streams", "segmentations_compared", "cuts_inside_headers", "surplus_cases", "accessor_sequences", "accessor_calls_compared", "accessor_short_data_errors", "truncated_streams", "framing_probes_seen"},
 		assumptions: append([]string{"ParameterStatus runs are compared as multisets (the library iterates a Go map); after an accessor returned an error the rest of that sequence is not judged"}, commonAssumptions...)}})
 }
 
@@ -129,6 +129,116 @@ func (ch c03) Run(c *core.Ctx) {
 			continue
 		}
 		ch.accessors(c, core.NewRng(c.Seed, "C03a", c.Batch, i), i)
+	}
+	for i := 0; i < nstreams; i++ {
+		if !c.Begin(300000+i) || c.NViol() >= 10 {
+			continue
+		}
+		ch.framing(c, envPlain, core.NewRng(c.Seed, "C03f", c.Batch, i), i)
+	}
+}
+
+// framing: messages of every type with arbitrary (non-fatal) bodies - oversized, unknown types,
+// surplus-carrying, stray COPY messages - are interleaved with numbered probes (Sync + Query).
+// If every message is consumed in exactly its declared length, every probe reaches the parser,
+// exactly once and in order, whatever lies between them.
+func (ch c03) framing(c *core.Ctx, env *hs.Env, rng *core.Rng, idx int) {
+	const L = 1 << 16
+	probe := &hs.Prog{Stmts: []*hs.Stmt{{ID: "probe", Cols: textCols(1), Params: []oid.Oid{}, Ops: []hs.Op{{K: "row", Vals: []any{"p"}}, {K: "complete", Tag: "SELECT 1"}}}}}
+	progs := map[string]*hs.Prog{}
+	stream := pg.Startup([][2]string{{"user", "framing"}})
+	n := 3 + rng.Intn(10)
+	shape := ""
+	for i := 0; i < n; i++ {
+		var m []byte
+		switch k := rng.Intn(9); k {
+		case 0: // oversized, any type, body length around multiples of L and not
+			sz := core.Pick(rng, []int{L + 1, L + 2, 2*L - 1, 2 * L, 2*L + 1, L + 100 + rng.Intn(3*L)})
+			m = pg.Raw(core.Pick(rng, []byte("QPBDECHSdcfp~")), rng.Bytes(sz))
+			shape += "O"
+		case 1: // unknown message type with a random body
+			m = pg.Raw(core.Pick(rng, []byte("~!zYRTZ1\x00\xff")), rng.Bytes(rng.Intn(300)))
+			shape += "U"
+		case 2: // Sync / Flush carrying surplus bytes
+			m = pg.Raw(core.Pick(rng, []byte("SH")), rng.Bytes(rng.Intn(200)))
+			shape += "s"
+		case 3: // stray COPY messages outside COPY mode
+			m = core.Pick(rng, [][]byte{pg.CopyData(rng.Bytes(rng.Intn(500))), pg.CopyDone(), pg.CopyFail("stray"), pg.Raw('c', rng.Bytes(9))})
+			shape += "c"
+		case 4: // Parse with prespecified types (unread tail) for a known program
+			q := fmt.Sprintf("fp%d.%d.%d", c.Batch, idx, i)
+			progs[q] = probe
+			m = pg.Parse(core.Pick(rng, xNames), q, []uint32{23, 25, uint32(rng.Intn(5000))})
+			shape += "P"
+		case 5: // Execute / Describe / Close of unknown names (fail, then skipped until the probe's Sync)
+			m = core.Pick(rng, [][]byte{pg.Execute("nosuch", 7), pg.Describe('P', "nosuch"), pg.Describe('S', "nosuch"), pg.Close('S', "nosuch"), pg.Bind("p", "nosuch", nil, nil, nil)})
+			shape += "e"
+		case 6: // messages with an empty body of types whose handlers do not read fields
+			m = pg.Raw(core.Pick(rng, []byte("SHc")), nil)
+			shape += "0"
+		case 7: // Query with surplus behind the terminator
+			q := fmt.Sprintf("fq%d.%d.%d", c.Batch, idx, i)
+			progs[q] = probe
+			m = pg.Raw('Q', append(append([]byte(q), 0), rng.Bytes(rng.Intn(100))...))
+			shape += "Q"
+		default: // Close / Execute with surplus
+			m = pg.Raw('C', append([]byte("Sx\x00"), rng.Bytes(rng.Intn(50))...))
+			shape += "C"
+		}
+		stream = append(stream, m...)
+		q := fmt.Sprintf("framing-probe %d.%d.%d", c.Batch, idx, i)
+		progs[q] = probe
+		stream = append(stream, pg.Sync()...)
+		stream = append(stream, pg.Query(q)...)
+	}
+	stream = append(stream, pg.Terminate()...)
+	sess := &hs.Sess{Progs: progs}
+	conn := env.Dial(sess)
+	conn.NoLog = true
+	switch rng.Intn(3) {
+	case 0:
+		conn.Send(stream)
+	case 1:
+		var cuts []int
+		for k := 1 + rng.Intn(20); k > 0; k-- {
+			cuts = append(cuts, 1+rng.Intn(len(stream)))
+		}
+		sort.Ints(cuts)
+		conn.SendCut(stream, cuts)
+	default:
+		conn.SendCut(stream, []int{len(stream) / 2})
+	}
+	conn.CloseWrite()
+	cs := map[string]any{"framing_shape": shape}
+	if !conn.WaitClosed() {
+		c.Violate("wedge", "connection did not end after EOF (framing case)", shape, cs)
+		return
+	}
+	c.Count("framing_streams", 1)
+	c.Eval("framing "+shape, true)
+	next := 0
+	for _, e := range conn.Events() {
+		if e.Kind != "cb" || e.Name != "parse" {
+			continue
+		}
+		q := e.Data.(hs.ParseRec).Query
+		if !strings.HasPrefix(q, "framing-probe ") {
+			if _, ok := progs[q]; !ok {
+				c.Violate("framing", "parser received a text that is not a message of the stream", fmt.Sprintf("shape %s: %q", shape, trim(q, 80)), cs)
+				return
+			}
+			continue
+		}
+		want := fmt.Sprintf("framing-probe %d.%d.%d", c.Batch, idx, next)
+		if q != want {
+			c.Violate("framing", "a message was not consumed in exactly its declared length: the following probe was lost, duplicated or reordered", fmt.Sprintf("shape %s (one symbol per message; O oversized, U unknown type, s Sync/Flush+surplus, c stray COPY, P Parse+types, e failing extended, 0 empty, Q Query+surplus, C Close+surplus): parser saw %q, expected %q", shape, q, want), cs)
+			return
+		}
+		next++
+		c.Count("framing_probes_seen", 1)
+	}
+	if next != n {
+		c.Violate("framing", "a message was not consumed in exactly its declared length: the following probe was lost, duplicated or reordered", fmt.Sprintf("shape %s: only %d of %d probes reached the parser; server output %s", shape, next, n, trim(replyKinds(conn.Out()), 300)), cs)
 	}
 }
 
